@@ -451,3 +451,39 @@ func PointsAtLoopVariable(titles []string) []Titled {
 	_ = first
 	return out
 }
+
+// unitNames is a fixed table; NamesUnitByNumber violates R2.23: the number is whatever the caller read.
+var unitNames = []string{"", "K", "M", "G"}
+
+func NamesUnitByNumber(n int) string {
+	if n < 0 {
+		return ""
+	}
+	ok := unitNames[n%4] + unitNames[(n>>3)&3]
+	return ok + unitNames[n/1000]
+}
+
+// Reader.NumberedLines violates R3.12: the counter lives on the reader and is never reset; Title is an accepted memo.
+type Reader struct {
+	lines   []string
+	counter int
+	title   *string
+}
+
+func (r *Reader) NumberedLines() []string {
+	var out []string
+	for _, l := range r.lines {
+		r.counter++
+		out = append(out, strings.Repeat("#", r.counter%3)+l)
+	}
+	return out
+}
+
+func (r *Reader) Title() *string {
+	if r.title != nil {
+		return r.title
+	}
+	t := strings.Join(r.lines, " ")
+	r.title = &t
+	return r.title
+}
